@@ -44,9 +44,21 @@ type Rule struct {
 	To   Ver `json:"to"`
 }
 type Step struct {
-	Kind string `json:"kind"`
-	Msg  int    `json:"msg,omitempty"`
+	Kind  string `json:"kind"`
+	Msg   int    `json:"msg,omitempty"`   // old replays: the message "hookmsg-<n>"
+	Text  string `json:"text,omitempty"`  // the failedMessage the hook gives (valid UTF-8, any bytes otherwise)
+	Class string `json:"class,omitempty"` // generator's class of Text (tag only)
+	Spell string `json:"spell,omitempty"` // how the response file spells Text as a JSON string: std | raw | uall | mixed
 }
+
+// the message of a step
+func (st Step) message() string {
+	if st.Text != "" || st.Msg <= 0 {
+		return st.Text
+	}
+	return fmt.Sprintf("hookmsg-%d", st.Msg)
+}
+
 type Input struct {
 	Kind    string `json:"kind"` // "search" | "handler"
 	Shape   string `json:"shape,omitempty"`
@@ -66,8 +78,8 @@ type Obj struct {
 	V  Ver `json:"v"`
 }
 type Outcome struct {
-	Kind string `json:"kind"` // exitfail | badresponse | noresponse | resp
-	Msg  int    `json:"msg,omitempty"`
+	Kind string `json:"kind"`          // exitfail | badresponse | noresponse | resp
+	Msg  string `json:"msg,omitempty"` // resp: the failedMessage the response file denotes ("" = none)
 	Objs []Obj  `json:"objs,omitempty"`
 }
 type Inv struct {
@@ -78,11 +90,8 @@ type Inv struct {
 type Answer struct {
 	Success bool   `json:"success"`
 	Objs    []Obj  `json:"objs,omitempty"`
-	Msg     string `json:"msg,omitempty"` // hook | hookfailed | properror | notsuccessful | count | other
-	M       int    `json:"m,omitempty"`
-	Got     int    `json:"got,omitempty"`
-	Want    int    `json:"want,omitempty"`
-	Raw     string `json:"raw,omitempty"`
+	Raw     string `json:"raw"`           // Failure: result.message, every byte of it (this is what Coq gets)
+	Msg     string `json:"msg,omitempty"` // tag only: what the text looks like (hook | hookfailed | properror | notsuccessful | count | other)
 }
 type Obs struct {
 	Answers    [][]Rule  `json:"answers,omitempty"` // search: chain per query (nil = not found)
@@ -241,6 +250,58 @@ func mkObjs(base, n int, v Ver) []Obj {
 	return r
 }
 
+// ---------------------------------------------------------------- JSON spellings of a message
+
+func u16esc(b *strings.Builder, r rune) {
+	if r >= 0x10000 {
+		r -= 0x10000
+		fmt.Fprintf(b, `\u%04x\u%04X`, 0xd800+(r>>10), 0xdc00+(r&0x3ff))
+		return
+	}
+	fmt.Fprintf(b, `\u%04x`, r)
+}
+
+// jsonString spells the (valid UTF-8) text as a JSON string literal in one of four ways; all
+// four denote the same string.
+//
+//	std:   encoding/json's own spelling (escapes < > & U+2028 U+2029)
+//	raw:   only what JSON requires is escaped (quote, backslash, control characters)
+//	uall:  every character as \uXXXX (surrogate pairs above U+FFFF)
+//	mixed: raw and \uXXXX alternate, '/' is written \/
+func jsonString(text, mode string) string {
+	if mode == "" || mode == "std" {
+		b, _ := json.Marshal(text)
+		return string(b)
+	}
+	var b strings.Builder
+	b.WriteByte('"')
+	for i, r := range []rune(text) {
+		esc := mode == "uall" || (mode == "mixed" && i%2 == 1)
+		switch {
+		case esc:
+			u16esc(&b, r)
+		case mode == "mixed" && r == '/':
+			b.WriteString(`\/`)
+		case r == '"':
+			b.WriteString(`\"`)
+		case r == '\\':
+			b.WriteString(`\\`)
+		case r == '\n':
+			b.WriteString(`\n`)
+		case r == '\t':
+			b.WriteString(`\t`)
+		case r == '\r':
+			b.WriteString(`\r`)
+		case r < 0x20:
+			u16esc(&b, r)
+		default:
+			b.WriteRune(r)
+		}
+	}
+	b.WriteByte('"')
+	return b.String()
+}
+
 // concrete outcome of the k-th hook run, for the rule the chain has at that position
 func concretise(st Step, k int, r Rule, desired Ver, n int) (out Outcome, resp string, exit int) {
 	outV := r.To
@@ -248,46 +309,58 @@ func concretise(st Step, k int, r Rule, desired Ver, n int) (out Outcome, resp s
 		outV = desired // a well-behaved hook writes the requested spelling of the final version
 	}
 	base := 100 * (k + 1)
-	respOf := func(msg int, objs []Obj) string {
+	msgLit := jsonString(st.message(), st.Spell)
+	respOf := func(msgField string, objs []Obj) string {
 		m := ""
-		if msg > 0 {
-			m = fmt.Sprintf(`"failedMessage":"hookmsg-%d",`, msg)
+		if msgField != "" {
+			m = `"failedMessage":` + msgField + `,`
 		}
 		return fmt.Sprintf(`{%s"convertedObjects":%s}`, m, objsJSON(objs))
 	}
 	switch st.Kind {
 	case "ok":
 		objs := mkObjs(base, n, outV)
-		return Outcome{Kind: "resp", Objs: objs}, respOf(0, objs), 0
+		return Outcome{Kind: "resp", Objs: objs}, respOf("", objs), 0
 	case "fewer":
 		m := n - 1
 		if m < 0 {
 			m = 0
 		}
 		objs := mkObjs(base, m, outV)
-		return Outcome{Kind: "resp", Objs: objs}, respOf(0, objs), 0
+		return Outcome{Kind: "resp", Objs: objs}, respOf("", objs), 0
 	case "more":
 		objs := mkObjs(base, n+1, outV)
-		return Outcome{Kind: "resp", Objs: objs}, respOf(0, objs), 0
+		return Outcome{Kind: "resp", Objs: objs}, respOf("", objs), 0
 	case "wrongver":
 		objs := mkObjs(base, n, Ver{0, 77})
-		return Outcome{Kind: "resp", Objs: objs}, respOf(0, objs), 0
+		return Outcome{Kind: "resp", Objs: objs}, respOf("", objs), 0
 	case "mixedver":
 		objs := append(mkObjs(base, 1, desired), mkObjs(base+1, n, Ver{0, 77})...)
-		return Outcome{Kind: "resp", Objs: objs}, respOf(0, objs), 0
+		return Outcome{Kind: "resp", Objs: objs}, respOf("", objs), 0
 	case "jump":
 		objs := mkObjs(base, n, desired)
-		return Outcome{Kind: "resp", Objs: objs}, respOf(0, objs), 0
+		return Outcome{Kind: "resp", Objs: objs}, respOf("", objs), 0
 	case "noobjs":
 		return Outcome{Kind: "resp"}, `{}`, 0
 	case "failmsg":
-		return Outcome{Kind: "resp", Msg: st.Msg}, fmt.Sprintf(`{"failedMessage":"hookmsg-%d"}`, st.Msg), 0
+		return Outcome{Kind: "resp", Msg: st.message()}, `{"failedMessage":` + msgLit + `}`, 0
 	case "failmsgobjs":
 		objs := mkObjs(base, n, outV)
-		return Outcome{Kind: "resp", Msg: st.Msg, Objs: objs}, respOf(st.Msg, objs), 0
+		return Outcome{Kind: "resp", Msg: st.message(), Objs: objs}, respOf(msgLit, objs), 0
+	case "emptymsg": // "failedMessage": "" is no message
+		objs := mkObjs(base, n, outV)
+		return Outcome{Kind: "resp", Objs: objs}, respOf(`""`, objs), 0
+	case "nullmsg": // so is null
+		objs := mkObjs(base, n, outV)
+		return Outcome{Kind: "resp", Objs: objs}, respOf(`null`, objs), 0
+	case "msgnotstring": // a failedMessage that is not a string: the response cannot be decoded
+		objs := mkObjs(base, n, outV)
+		return Outcome{Kind: "badresponse"}, respOf(`42`, objs), 0
+	case "exit1msg": // a message, but the hook itself failed: the run is a failed run
+		return Outcome{Kind: "exitfail"}, `{"failedMessage":` + msgLit + `}`, 1
 	case "exit1resp":
 		objs := mkObjs(base, n, outV)
-		return Outcome{Kind: "exitfail"}, respOf(0, objs), 1
+		return Outcome{Kind: "exitfail"}, respOf("", objs), 1
 	case "badjson":
 		return Outcome{Kind: "badresponse"}, `{"convertedObjects": [tru`, 0
 	case "empty":
@@ -298,27 +371,19 @@ func concretise(st Step, k int, r Rule, desired Ver, n int) (out Outcome, resp s
 
 var reCount = regexp.MustCompile(`^hook returned (\d+) objects instead of (\d+)$`)
 
-func classify(msg string) Answer {
-	a := Answer{Raw: msg}
+// what a Failure's text looks like: for tags and the readable rendering only, never for Coq
+func looksLike(msg string) string {
 	switch {
-	case strings.HasPrefix(msg, "hookmsg-"):
-		a.Msg = "hook"
-		a.M, _ = strconv.Atoi(strings.TrimPrefix(msg, "hookmsg-"))
 	case strings.HasPrefix(msg, "Hook failed to convert to "):
-		a.Msg = "hookfailed"
+		return "hookfailed"
 	case msg == "hook task prop error":
-		a.Msg = "properror"
+		return "properror"
 	case strings.HasPrefix(msg, "Conversion to ") && strings.HasSuffix(msg, " was not successuful"):
-		a.Msg = "notsuccessful"
+		return "notsuccessful"
 	case reCount.MatchString(msg):
-		m := reCount.FindStringSubmatch(msg)
-		a.Msg = "count"
-		a.Got, _ = strconv.Atoi(m[1])
-		a.Want, _ = strconv.Atoi(m[2])
-	default:
-		a.Msg = "other"
+		return "count"
 	}
-	return a
+	return "other"
 }
 
 func runHandler(in Input) (o Obs) {
@@ -434,11 +499,11 @@ func runHandler(in Input) (o Obs) {
 
 	ans := Answer{}
 	if rec.Code != http.StatusOK {
-		ans = Answer{Msg: "other", Raw: fmt.Sprintf("HTTP %d %s", rec.Code, rec.Body.String())}
+		ans = Answer{Msg: "nohttp200", Raw: fmt.Sprintf("(harness) HTTP %d %s", rec.Code, rec.Body.String())}
 	} else {
 		var review apixv1.ConversionReview
 		if err := json.Unmarshal(rec.Body.Bytes(), &review); err != nil || review.Response == nil {
-			ans = Answer{Msg: "other", Raw: "undecodable answer: " + rec.Body.String()}
+			ans = Answer{Msg: "undecodable", Raw: "(harness) undecodable answer: " + rec.Body.String()}
 		} else if review.Response.Result.Status == "Success" {
 			var raws [][]byte
 			for _, co := range review.Response.ConvertedObjects {
@@ -446,10 +511,11 @@ func runHandler(in Input) (o Obs) {
 			}
 			ans = Answer{Success: true, Objs: parseObjs(raws)}
 			if string(review.Response.UID) != "uid-1" {
-				ans = Answer{Msg: "other", Raw: "Success with a wrong UID " + string(review.Response.UID)}
+				ans = Answer{Msg: "wronguid", Raw: "(harness) Success with a wrong UID " + string(review.Response.UID)}
 			}
 		} else {
-			ans = classify(review.Response.Result.Message)
+			// result.message as the API server would read it; no interpretation here
+			ans = Answer{Raw: review.Response.Result.Message, Msg: looksLike(review.Response.Result.Message)}
 		}
 	}
 	o.Ans = &ans
@@ -522,10 +588,37 @@ func objsText(os []Obj) string {
 	}
 	return "[" + strings.Join(parts, " ") + "]"
 }
+func planText(p []Step) string {
+	var parts []string
+	for _, st := range p {
+		if m := st.message(); m != "" {
+			parts = append(parts, fmt.Sprintf("%s(%q as %s)", st.Kind, m, orStd(st.Spell)))
+		} else {
+			parts = append(parts, st.Kind)
+		}
+	}
+	return strings.Join(parts, " ")
+}
+func orStd(s string) string {
+	if s == "" {
+		return "std"
+	}
+	return s
+}
+
+// the failedMessage of the last hook run, if that run gave one
+func lastHookMessage(obs *Obs) (string, bool) {
+	k := len(obs.Trace) - 1
+	if k < 0 || k >= len(obs.Outs) || obs.Outs[k].Kind != "resp" || obs.Outs[k].Msg == "" {
+		return "", false
+	}
+	return obs.Outs[k].Msg, true
+}
+
 func readable(in Input, obs *Obs) []string {
 	out := []string{"rules " + rulesText(in.Rules)}
 	if in.Kind == "handler" {
-		out = append(out, fmt.Sprintf("request: %d object(s) at %s, desired %s; plan %v", in.NReq, in.Src, in.Desired, in.Plan))
+		out = append(out, fmt.Sprintf("request: %d object(s) at %s, desired %s; plan %s", in.NReq, in.Src, in.Desired, planText(in.Plan)))
 		if obs.ChainFound {
 			out = append(out, "chain "+rulesText(obs.Chain))
 		} else {
@@ -534,7 +627,7 @@ func readable(in Input, obs *Obs) []string {
 		for k, t := range obs.Trace {
 			o := "?"
 			if k < len(obs.Outs) {
-				o = fmt.Sprintf("%s msg=%d %s", obs.Outs[k].Kind, obs.Outs[k].Msg, objsText(obs.Outs[k].Objs))
+				o = fmt.Sprintf("%s failedMessage=%q %s", obs.Outs[k].Kind, obs.Outs[k].Msg, objsText(obs.Outs[k].Objs))
 			}
 			out = append(out, fmt.Sprintf("run %d: %s for %s received %s; it produced %s", k, t.Who, t.Rule, objsText(t.Objs), o))
 		}
@@ -542,7 +635,10 @@ func readable(in Input, obs *Obs) []string {
 			if obs.Ans.Success {
 				out = append(out, "answer: Success "+objsText(obs.Ans.Objs))
 			} else {
-				out = append(out, fmt.Sprintf("answer: Failed (%s) %q", obs.Ans.Msg, obs.Ans.Raw))
+				out = append(out, fmt.Sprintf("answer: Failure, message %q", obs.Ans.Raw))
+				if hm, ok := lastHookMessage(obs); ok && hm != obs.Ans.Raw {
+					out = append(out, fmt.Sprintf("the failing hook's own message was %q", hm))
+				}
 			}
 		}
 		return out
@@ -593,10 +689,7 @@ func coqChain(rules []Rule, chain []Rule) string {
 func coqOutcome(o Outcome) string {
 	switch o.Kind {
 	case "resp":
-		if o.Msg > 0 {
-			return fmt.Sprintf("OResp (Some %d) %s", o.Msg, coqObjs(o.Objs))
-		}
-		return "OResp None " + coqObjs(o.Objs)
+		return "OResp " + core.CoqBytes(o.Msg) + " " + coqObjs(o.Objs)
 	case "badresponse":
 		return "OBadResponse"
 	case "noresponse":
@@ -606,24 +699,12 @@ func coqOutcome(o Outcome) string {
 }
 func coqAnswer(a *Answer) string {
 	if a == nil {
-		return "Failed MOther"
+		return "RFailure []"
 	}
 	if a.Success {
-		return "Success " + coqObjs(a.Objs)
+		return "RSuccess " + coqObjs(a.Objs)
 	}
-	switch a.Msg {
-	case "hook":
-		return fmt.Sprintf("Failed (MHook %d)", a.M)
-	case "hookfailed":
-		return "Failed MHookFailed"
-	case "properror":
-		return "Failed MPropError"
-	case "notsuccessful":
-		return "Failed MNotSuccessful"
-	case "count":
-		return fmt.Sprintf("Failed (MCount %d %d)", a.Got, a.Want)
-	}
-	return "Failed MOther"
+	return "RFailure " + core.CoqBytes(a.Raw)
 }
 
 func Render(in Input, obs *Obs, crash string) core.Case {
@@ -641,24 +722,43 @@ func Render(in Input, obs *Obs, crash string) core.Case {
 		if obs.ChainFound {
 			chain = coqChain(in.Rules, obs.Chain)
 		}
-		c.Coq = fmt.Sprintf("CH %s %s %s %s\n  %s %s\n  %s (%s)",
-			coqRules(in.Rules), coqVer(in.Src), coqVer(in.Desired), chain,
+		c.Coq = fmt.Sprintf("CH %s %s %s %s %s\n  %s %s\n  %s (%s)",
+			coqRules(in.Rules), coqVer(in.Src), coqVer(in.Desired), core.CoqBytes(in.Desired.String()), chain,
 			coqObjs(mkObjs(1, in.NReq, in.Src)), core.CoqList(obs.Outs, coqOutcome),
 			core.CoqList(obs.Trace, func(i Inv) string { return fmt.Sprintf("(%d,%s)", ruleIndex(in.Rules, i.Rule), coqObjs(i.Objs)) }),
 			coqAnswer(obs.Ans))
 		c.JSON = map[string]any{"obs": obs, "readable": readable(in, obs)}
-		c.Key = fmt.Sprintf("H %s %s %s %d %v", coqRules(in.Rules), coqVer(in.Src), coqVer(in.Desired), in.NReq, in.Plan)
+		c.Key = fmt.Sprintf("H %s %s %s %d %q", coqRules(in.Rules), coqVer(in.Src), coqVer(in.Desired), in.NReq, planText(in.Plan))
 		c.Nontrivial = obs.ChainFound && len(obs.Trace) > 0
 		c.Tags = append(c.Tags, fmt.Sprintf("chainlen:%d", len(obs.Chain)), fmt.Sprintf("runs:%d", len(obs.Trace)))
 		for k, st := range in.Plan {
 			if k < len(obs.Trace) {
 				c.Tags = append(c.Tags, "step:"+st.Kind)
+				// a message the hook reported (exit 0) in a run that took place
+				if st.message() != "" && (st.Kind == "failmsg" || st.Kind == "failmsgobjs") {
+					class := st.Class
+					if class == "" {
+						class = "plain"
+					}
+					c.Tags = append(c.Tags, "msg:"+class, "msgspell:"+orStd(st.Spell))
+					for _, f := range msgFeatures(st.message()) {
+						c.Tags = append(c.Tags, "msghas:"+f)
+					}
+				}
 			}
 		}
 		if obs.Ans != nil && obs.Ans.Success {
 			c.Tags = append(c.Tags, "answer:Success")
 		} else if obs.Ans != nil {
-			c.Tags = append(c.Tags, "answer:Failed/"+obs.Ans.Msg)
+			if hm, ok := lastHookMessage(obs); ok {
+				if hm == obs.Ans.Raw {
+					c.Tags = append(c.Tags, "answer:Failed/hook-message-verbatim")
+				} else {
+					c.Tags = append(c.Tags, "answer:Failed/hook-message-ALTERED")
+				}
+			} else {
+				c.Tags = append(c.Tags, "answer:Failed/"+obs.Ans.Msg)
+			}
 		}
 		return c
 	}
@@ -853,6 +953,107 @@ func dedupe(rules []Rule) []Rule {
 
 var faultKinds = []string{"exit1", "exit1resp", "badjson", "empty", "failmsg", "failmsgobjs", "fewer", "more", "wrongver", "mixedver", "jump", "noobjs"}
 
+// faults around the failedMessage field (weights by repetition)
+var msgKinds = []string{"failmsg", "failmsg", "failmsg", "failmsgobjs", "failmsgobjs", "exit1msg", "emptymsg", "nullmsg", "msgnotstring"}
+var msgSpells = []string{"std", "raw", "uall", "mixed"}
+
+// Message classes.  A failedMessage is free text for a human: it may contain anything.  Each
+// class lists fragments; a message is one fragment or a few of them joined.
+var msgClasses = []struct {
+	name  string
+	frags []string
+}{
+	{"plain", []string{"spec.cron is not a valid crontab", "conversion of o1 failed", "cannot convert", "x", "object o1: unknown field spec.schedule"}},
+	{"percent", []string{"disk is 93% full", "cpu 7%, mem 12%", "rate %d/s on %s", "a%20b%3Fc", "%", "100%", "%%", "%v", "%d", "%s",
+		"%!d(MISSING)", "%[1]d", "%+v %#v %T", "%!(NOVERB)", "%w", "% d", "%.2f", "%*d", "%q", "%x%X%o%b%c%U%e%g%p%t", "%%%", "50 %", "%!", "%(", "%-5s|", "%[2]*[1]d", "%\n", "%é"}},
+	{"quote", []string{`he said "no"`, `it's`, `back\slash`, "`tick`", `"`, `\`, `\"`, `\\n`, `\u0041`, `'%s'`, `{"failedMessage":"inner"}`}},
+	{"newline", []string{"line1\nline2", "tab\there", "cr\r\nlf", "ends with newline\n", "\n", "\nstarts with newline", "bell\a nul\x00 esc\x1b del\x7f us\x1f"}},
+	{"unicode", []string{"преобразование не удалось", "変換に失敗しました", "emoji \U0001F6AB no", "é", "nbsp\u00a0here", "ls\u2028ps\u2029", "\ufeffbom", "replacement \ufffd char", "astral \U00010348\U0010FFFF", "ﬁ ligature İ ı ß"}},
+	{"space", []string{" leading space", "trailing space ", "  both  ", " ", "\t", "two  spaces", " \n "}},
+	{"html", []string{"<b>&amp;</b>", "a < b && c > d", "<script>alert(1)</script>", "&", "<", ">"}},
+	{"long", []string{strings.Repeat("0123456789 ", 14), strings.Repeat("abc%def ", 25), strings.Repeat("всё ", 40), strings.Repeat("100% ", 60),
+		"error: " + strings.Repeat("x", 120) + " (at 100%)"}},
+	{"lookalike", []string{"hook task prop error", "Hook failed to convert to v1", "hook returned 1 objects instead of 2", "Conversion to v1 was not successuful",
+		"Success", "Failure", "hookmsg-3", "null", "0", "false", "true", "{}", "[]", "<nil>", "%!s(<nil>)", "EOF", "error: "}},
+}
+
+func (g *gen) message() (text, class string) {
+	if g.r.Chance(6) { // long
+		var b strings.Builder
+		unit := []string{"0123456789 ", "abc%def ", "всё ", "100% "}[g.r.Intn(4)]
+		for b.Len() < 150+g.r.Intn(150) {
+			b.WriteString(unit)
+		}
+		return b.String(), "long"
+	}
+	c := msgClasses[g.r.Intn(len(msgClasses))]
+	if c.name == "plain" && g.r.Chance(50) { // plain text is what everybody tests; keep its share low
+		c = msgClasses[1]
+	}
+	text = c.frags[g.r.Intn(len(c.frags))]
+	// sometimes embed in, or join with, other fragments (of any class)
+	for n := 0; n < 3 && g.r.Chance(40); n++ {
+		o := msgClasses[g.r.Intn(len(msgClasses))]
+		f := o.frags[g.r.Intn(len(o.frags))]
+		sep := []string{" ", "", ": ", "\n"}[g.r.Intn(4)]
+		if g.r.Bool() {
+			text = text + sep + f
+		} else {
+			text = f + sep + text
+		}
+	}
+	return text, c.name
+}
+
+// what a message contains (tags)
+func msgFeatures(m string) []string {
+	var f []string
+	add := func(ok bool, name string) {
+		if ok {
+			f = append(f, name)
+		}
+	}
+	add(strings.Contains(m, "%"), "percent")
+	add(strings.HasSuffix(m, "%"), "trailing-percent")
+	add(strings.ContainsAny(m, "\"'`"), "quote")
+	add(strings.Contains(m, `\`), "backslash")
+	add(strings.ContainsAny(m, "\n\r"), "newline")
+	ctl, nonascii := false, false
+	for _, r := range m {
+		if r < 0x20 && r != '\n' && r != '\r' || r == 0x7f {
+			ctl = true
+		}
+		if r >= 0x80 {
+			nonascii = true
+		}
+	}
+	add(ctl, "control")
+	add(nonascii, "non-ascii")
+	add(strings.ContainsAny(m, "<>&"), "html")
+	add(m != strings.TrimSpace(m), "outer-space")
+	add(len(m) > 100, "over-100-bytes")
+	add(looksLike(m) != "other", "reads-like-operator-text")
+	return f
+}
+
+func (g *gen) msgStep() Step {
+	text, class := g.message()
+	return Step{Kind: msgKinds[g.r.Intn(len(msgKinds))], Text: text, Class: class, Spell: msgSpells[g.r.Intn(len(msgSpells))]}
+}
+
+// a fault for the plan: half of them concern the failedMessage
+func (g *gen) fault() Step {
+	if g.r.Chance(50) {
+		return g.msgStep()
+	}
+	st := Step{Kind: faultKinds[g.r.Intn(len(faultKinds))]}
+	if strings.Contains(st.Kind, "msg") {
+		st.Text, st.Class = g.message()
+		st.Spell = msgSpells[g.r.Intn(len(msgSpells))]
+	}
+	return st
+}
+
 func (g *gen) handlerCase() Input {
 	shape := shapes[g.r.Intn(len(shapes))]
 	spell := []string{"short", "full"}[g.r.Intn(2)] // uniform spelling of the rules: the chain is then a function of the cache
@@ -907,10 +1108,10 @@ func (g *gen) handlerCase() Input {
 	}
 	if g.r.Chance(65) {
 		pos := g.r.Intn(steps)
-		in.Plan[pos] = Step{Kind: faultKinds[g.r.Intn(len(faultKinds))], Msg: 1 + g.r.Intn(5)}
+		in.Plan[pos] = g.fault()
 		if g.r.Chance(25) {
 			p2 := g.r.Intn(steps + 1)
-			in.Plan[p2] = Step{Kind: faultKinds[g.r.Intn(len(faultKinds))], Msg: 1 + g.r.Intn(5)}
+			in.Plan[p2] = g.fault()
 		}
 	}
 	return in
@@ -967,7 +1168,51 @@ func Corpus() []Input {
 		{Kind: "handler", Shape: "corpus", Spell: "short", Rules: lin, Src: v(8), Desired: v(0), NReq: 1, NHooks: 1, Plan: oks(4)},
 		{Kind: "handler", Shape: "corpus", Spell: "short", Rules: lin, Src: v(0), Desired: v(8), NReq: 1, NHooks: 1,
 			Plan: with(oks(4), 1, Step{Kind: "exit1"})},
+		// the failing hook's own message is free text: whatever it contains, it is the answer's message.
+		// Texts a formatter, a trimmer, a quoter or a classifier would rewrite; on the first, second, last step
+		{Kind: "handler", Shape: "corpus-msg", Spell: "short", Rules: lin[:1], Src: v(0), Desired: v(3), NReq: 1, NHooks: 1,
+			Plan: with(oks(4), 0, Step{Kind: "failmsg", Class: "percent", Text: "volume is 93% full"})},
+		{Kind: "handler", Shape: "corpus-msg", Spell: "short", Rules: lin, Src: v(0), Desired: v(8), NReq: 2, NHooks: 2,
+			Plan: with(oks(4), 1, Step{Kind: "failmsgobjs", Class: "percent", Spell: "raw", Text: "bad name pattern 'cron-%d-%s' in ns%2Fname: %v %% 100%"})},
+		{Kind: "handler", Shape: "corpus-msg", Spell: "short", Rules: lin, Src: v(0), Desired: Ver{1, 8}, NReq: 1, NHooks: 3,
+			Plan: with(oks(4), 2, Step{Kind: "failmsg", Class: "quote", Spell: "mixed", Text: "he said \"no\",\n\tit's a back\\slash; не удалось \U0001F6AB <b>&</b>"})},
+		{Kind: "handler", Shape: "corpus-msg", Spell: "short", Rules: lin[:2], Src: v(0), Desired: v(5), NReq: 1, NHooks: 1,
+			Plan: with(oks(4), 1, Step{Kind: "failmsg", Class: "space", Spell: "uall", Text: "  two leading spaces, one trailing newline\n"})},
+		{Kind: "handler", Shape: "corpus-msg", Spell: "short", Rules: lin[:1], Src: v(0), Desired: v(3), NReq: 1, NHooks: 1,
+			Plan: with(oks(4), 0, Step{Kind: "failmsg", Class: "space", Text: " "})},
+		{Kind: "handler", Shape: "corpus-msg", Spell: "short", Rules: lin[:1], Src: v(0), Desired: v(3), NReq: 2, NHooks: 1,
+			Plan: with(oks(4), 0, Step{Kind: "failmsg", Class: "lookalike", Text: "hook returned 1 objects instead of 2"})},
+		{Kind: "handler", Shape: "corpus-msg", Spell: "short", Rules: lin[:1], Src: v(0), Desired: v(3), NReq: 1, NHooks: 1,
+			Plan: with(oks(4), 0, Step{Kind: "failmsg", Class: "lookalike", Text: "hook task prop error"})},
+		// no message after all: "" and null; a message that is not a string; a message of a hook that exits 1
+		{Kind: "handler", Shape: "corpus-msg", Spell: "short", Rules: lin[:2], Src: v(0), Desired: v(5), NReq: 1, NHooks: 1,
+			Plan: with(with(oks(4), 0, Step{Kind: "emptymsg"}), 1, Step{Kind: "nullmsg"})},
+		{Kind: "handler", Shape: "corpus-msg", Spell: "short", Rules: lin[:1], Src: v(0), Desired: v(3), NReq: 1, NHooks: 1,
+			Plan: with(oks(4), 0, Step{Kind: "msgnotstring"})},
+		{Kind: "handler", Shape: "corpus-msg", Spell: "short", Rules: lin[:1], Src: v(0), Desired: Ver{1, 3}, NReq: 1, NHooks: 1,
+			Plan: with(oks(4), 0, Step{Kind: "exit1msg", Class: "percent", Text: "100% broken"})},
 	}
+}
+
+// one message step on a short linear chain v1 -> v2 -> v3: the stream that exercises the
+// message classes systematically (every class in every JSON spelling)
+func (g *gen) messageCase(class int, spell string) Input {
+	lin := []Rule{rl(0, 3), rl(3, 5), rl(5, 8)}
+	n := 1 + g.r.Intn(3)
+	c := msgClasses[class]
+	text := c.frags[g.r.Intn(len(c.frags))]
+	if g.r.Chance(35) {
+		o := msgClasses[g.r.Intn(len(msgClasses))]
+		text += []string{" ", "", ": "}[g.r.Intn(3)] + o.frags[g.r.Intn(len(o.frags))]
+	}
+	kind := "failmsg"
+	if g.r.Chance(30) {
+		kind = "failmsgobjs"
+	}
+	in := Input{Kind: "handler", Shape: "messages", Spell: "short", Rules: lin[:n], Src: v(0), Desired: g.spell(lin[n-1].To.S, "mixed", 1),
+		NReq: 1 + g.r.Intn(2), NHooks: 1 + g.r.Intn(2), Plan: oks(4)}
+	in.Plan[g.r.Intn(n)] = Step{Kind: kind, Text: text, Class: c.name, Spell: spell}
+	return in
 }
 
 // all rule sets with at most maxRules rules over nv versions (self-rules included)
@@ -1002,12 +1247,12 @@ func Gen(r *core.Rng, tier string) ([]core.In[Input], bool) {
 		add(c, "corpus")
 	}
 	g := &gen{r: r}
-	nGraphs, nHandler := 200, 160
+	nGraphs, nHandler, nMsgRounds := 200, 160, 2
 	switch tier {
 	case "thorough":
-		nGraphs, nHandler = 10000, 1500
+		nGraphs, nHandler, nMsgRounds = 10000, 1500, 40
 	case "search":
-		nGraphs, nHandler = 1500, 300
+		nGraphs, nHandler, nMsgRounds = 1500, 300, 6
 	}
 	for i := 0; i < nGraphs; i++ {
 		shape := shapes[g.r.Intn(len(shapes))]
@@ -1024,6 +1269,13 @@ func Gen(r *core.Rng, tier string) ([]core.In[Input], bool) {
 	}
 	for i := 0; i < nHandler; i++ {
 		add(g.handlerCase(), "handler")
+	}
+	for round := 0; round < nMsgRounds; round++ {
+		for c := range msgClasses {
+			for _, sp := range msgSpells {
+				add(g.messageCase(c, sp), "messages")
+			}
+		}
 	}
 	if tier == "thorough" || tier == "search" {
 		nv, mr := 4, 5
@@ -1057,6 +1309,6 @@ func Gen(r *core.Rng, tier string) ([]core.In[Input], bool) {
 
 var Driver = core.Driver[Input, Obs]{
 	Spec: core.Spec{Property: "C15", Imports: []string{"C15_Model", "C15_Spec", "C15_Corr"}, Corr: "C15_Corr", Triggers: nil, ShrinkKey: "rules",
-		Rule: "search cases: a generated rule graph (chains, forks after k steps, diamonds, cycles, random; near-miss names v1/v10/v1beta1/v1alpha1/v2/v2beta1/v20; spelt short, with group, or mixed) and all (from,to) pairs queried through the real ChainStorage.FindConversionChain on a fresh storage per query and on a shared one; every returned chain is judged by Coq (valid_chain), every nil by reachable, found/not-found is compared with the model. handler cases: real hooks (bash stubs) + real hook.Manager + real conversionEventHandler + real conversion.WebhookHandler router, one ConversionReview, scripted outcome per hook run (ok, exit 1, bad JSON, empty, failedMessage with/without objects, fewer/more objects, wrong/mixed versions, early jump, no objects); hook runs (registrar, rule, objects received) and the answer compared with the model. Streams: corpus (witnesses of F4a-F4d), random, two-groups (informational, outside the domain), handler, exhaustive (thorough: every rule set of <=5 rules over the 4 versions v1,v10,v1beta1,v2 incl. self-rules, all 16 pairs, fresh and shared, plus one re-spelling). non-trivial = search: >=2 rules and a returned chain of >=2 steps; handler: chain found and at least one hook ran. distinct = distinct input text"},
+		Rule: "search cases: a generated rule graph (chains, forks after k steps, diamonds, cycles, random; near-miss names v1/v10/v1beta1/v1alpha1/v2/v2beta1/v20; spelt short, with group, or mixed) and all (from,to) pairs queried through the real ChainStorage.FindConversionChain on a fresh storage per query and on a shared one; every returned chain is judged by Coq (valid_chain), every nil by reachable, found/not-found is compared with the model. handler cases: real hooks (bash stubs) + real hook.Manager + real conversionEventHandler + real conversion.WebhookHandler router, one ConversionReview, scripted outcome per hook run (ok, exit 1, bad JSON, empty, failedMessage with/without objects, failedMessage \"\"/null/not a string, failedMessage of a hook that exits 1, fewer/more objects, wrong/mixed versions, early jump, no objects); hook runs (registrar, rule, objects received) and the answer compared with the model: result.status, the converted objects, and result.message BYTE FOR BYTE (no text is classified by the harness; the model C15_Model.serve produces the text of every message, the Spec demands that a failing hook's failedMessage is the answer's message). failedMessage texts are free text by class (tags msg:<class>, msghas:<feature>, msgspell:<JSON spelling in the response file: std|raw|uall|mixed>): plain, percent (%d %s %v %w %% %[1]d, trailing %, %2F ...), quote (quotes, backslashes, text that reads like an escape), newline (newlines, tabs, control bytes incl. NUL), unicode (Cyrillic, CJK, astral, U+2028, BOM, U+FFFD), space (leading/trailing blanks, a lone blank), html (< > &), lookalike (texts that read like the operator's own messages, null, {}), long (150-300 bytes). Streams: corpus (witnesses of F4a-F4d, message witnesses), random, two-groups (informational, outside the domain), handler (half of the faults concern the failedMessage), messages (every message class in every JSON spelling on a 1-3 step chain), exhaustive (thorough: every rule set of <=5 rules over the 4 versions v1,v10,v1beta1,v2 incl. self-rules, all 16 pairs, fresh and shared, plus one re-spelling). non-trivial = search: >=2 rules and a returned chain of >=2 steps; handler: chain found and at least one hook ran. distinct = distinct input text"},
 	Gen: Gen, Run: Run, Render: Render, PerShard: 1000, Workers: 8, CaseTimout: 30 * time.Second,
 }
